@@ -194,10 +194,15 @@ func (g *Generator) AdjustAnnotations(annotations map[string]string) error {
 	if annotations, err = g.filterAnnotations(annotations); err != nil {
 		return err
 	}
-	for k, v := range annotations {
+	// apply removals first: map iteration order must not decide whether a
+	// removal or a setting of the same key in the same adjustment wins
+	for k := range annotations {
 		if key, marked := nri.IsMarkedForRemoval(k); marked {
 			g.RemoveAnnotation(key)
-		} else {
+		}
+	}
+	for k, v := range annotations {
+		if _, marked := nri.IsMarkedForRemoval(k); !marked {
 			g.AddAnnotation(k, v)
 		}
 	}
